@@ -1,9 +1,11 @@
 (* Props/C02.v -- property C02: glitch-free propagation, at most one run per change (pure-callback model).
-   PARTIAL: "reads only settled values" is the [cons] clause of C01 under the late-read hypothesis; the
-   characterisation of *which* dependency fired is not stated separately. *)
-From stdpp Require Import gmap list.
+   Second half of this file: the statements for a whole write from a quiescent state (schedule, reads only
+   settled values, a node runs only if one of its dependencies fired). Tracked reads only: an untracked read
+   may observe a node that is still scheduled (C02_untracked_read_sees_stale_value). *)
+From stdpp Require Import gmap list relations.
 From Coq Require Import ZArith.
 From Syc.ReactivePure Require Import Pure Loop LoopInv Ops Spec Step Extra.
+From Syc.ReactivePure Require Import Dfs DfsFacts Propagate Glitch Create PropagateExamples.
 
 (* one trace entry per scheduled node, and the schedule has no duplicates: at most one run per propagation *)
 Theorem C02_one_entry_per_scheduled_node : forall order (s s' : st) tr,
@@ -23,3 +25,60 @@ Theorem C02_step : forall n rest (s s2 : st) t r ch,
   Inv (n :: rest) s -> dirtyOf s n = true -> run_node n s = Some (s2, (t, r, ch)) ->
   (forall x, x ∈ t -> x ∉ rest) -> Inv rest s2.
 Proof. exact step. Qed.
+
+(* ---------- a whole write ---------- *)
+(* the schedule has no duplicates (at most one run per node and write), one trace entry per scheduled node,
+   starts with the written signal and contains only nodes reachable from it through subscriber edges *)
+Theorem C02_write_schedule : forall (s s' : st) x v order tr,
+  Quiescent s -> write x v s = POk s' order tr ->
+  NoDup order /\ length tr = length order /\ order !! 0%nat = Some x /\ (forall n, n ∈ order -> rtc (edge s) x n).
+Proof. exact write_schedule. Qed.
+
+(* when a node runs it is dirty; every node it reads with tracking, and every dependency of such a node, is
+   settled at that moment: not scheduled any more, not dirty, consistent, holding the value it has when the
+   write returns. The same holds for any other read that does not hit a still-scheduled node. *)
+Theorem C02_write_reads_settled : forall (s s' : st) x v order tr,
+  Quiescent s -> write x v s = POk s' order tr -> LRF order tr ->
+  forall i n t r ch, order !! i = Some n -> tr !! i = Some (Some (t, r, ch)) ->
+  exists sm nd f k v0,
+    sm !! n = Some nd /\ dirty nd = true /\ cb nd = Some (f, k) /\
+    eval f (values sm) = Some (v0, t, r) /\ ch = negb (eqk k v0 (val nd)) /\
+    valOf s' n = (if ch then v0 else val nd) /\
+    (forall d, d ∈ t -> settled (n :: drop (S i) order) sm s' d /\
+                        forall e, e ∈ depsOf sm d -> settled (n :: drop (S i) order) sm s' e) /\
+    (forall d, d ∈ r -> d ∉ drop (S i) order -> settled (n :: drop (S i) order) sm s' d).
+Proof. exact write_reads_settled. Qed.
+
+(* a node runs only if one of the dependencies it had before the write is the written signal or a computation
+   that ran earlier in the same propagation and changed (selectors that compare equal do not fire) *)
+Theorem C02_write_runs_only_if_fired : forall (s s' : st) x v order tr,
+  Quiescent s -> write x v s = POk s' order tr -> LRF order tr ->
+  forall i n ev, order !! i = Some n -> tr !! i = Some (Some ev) ->
+  exists d, d ∈ depsOf s n /\
+    (d = x \/ exists j t r, (j < i)%nat /\ order !! j = Some d /\ tr !! j = Some (Some (t, r, true))).
+Proof. exact write_runs_only_if_fired. Qed.
+
+(* conversely, every node with a dependency that fired does run: with the previous theorem, a computation
+   re-runs during a write if and only if one of its dependencies is the written signal or a computation that
+   ran and changed *)
+Theorem C02_write_runs_if_fired : forall (s s' : st) x v order tr,
+  Quiescent s -> write x v s = POk s' order tr -> LRF order tr ->
+  forall n d, d ∈ depsOf s n ->
+  (d = x \/ exists j t r, order !! j = Some d /\ tr !! j = Some (Some (t, r, true))) ->
+  exists i ev, order !! i = Some n /\ tr !! i = Some (Some ev).
+Proof. exact write_runs_if_fired. Qed.
+
+(* selector cut-off on a closed instance: the selector runs and does not change, its dependent does not run *)
+Theorem C02_selector_cut :
+  is_lrf (write 0 3 selg) = true /\ ran (write 0 3 selg) = [(1%nat, false)] /\
+  is_lrf (write 0 4 selg) = true /\ ran (write 0 4 selg) = [(1%nat, true); (2%nat, true)].
+Proof. exact write_selector_cut. Qed.
+
+(* untracked reads are outside the guarantee: c = memo(s + untracked b) is scheduled before b = memo(2s)
+   (subscribers of s in creation order), reads b while b is still dirty, and ends with 5+2 while b ends with 10 *)
+Theorem C02_untracked_read_sees_stale_value :
+  is_lrf (write 0 5 untr) = true /\
+  (match write 0 5 untr with POk _ o tr => (o, tr) | _ => ([], []) end)
+    = ([0%nat; 2%nat; 1%nat], [None; Some ([0%nat], [0%nat; 1%nat], true); Some ([0%nat], [0%nat], true)]) /\
+  final_val (write 0 5 untr) 1 = Some 10%Z /\ final_val (write 0 5 untr) 2 = Some 7%Z.
+Proof. exact untracked_read_sees_stale_value. Qed.
